@@ -10,6 +10,7 @@ import (
 	"runtime"
 	"sort"
 	"strings"
+	"sync"
 	"time"
 
 	bm "github.com/microcosm-cc/bluemonday"
@@ -195,6 +196,39 @@ func cmdCostCheck(args []string) int {
 			res.Violations = append(res.Violations, ViolationRec{Finding{"C14", key, det}, writeCostReplay(rf)})
 		}
 	}
+	// a stall watchdog for the sweeps below: every call announces its input; if the announcement does not change for 30 s the
+	// call is stuck (it cannot be cancelled), so the finding is recorded, the result written and the process left
+	var curMu sync.Mutex
+	curInput, curSeq, curRecipe := "", 0, Recipe(nil)
+	announce := func(r Recipe, in string) {
+		curMu.Lock()
+		curInput, curRecipe = in, r
+		curSeq++
+		curMu.Unlock()
+	}
+	go func() {
+		last, since := -1, time.Now()
+		for {
+			time.Sleep(500 * time.Millisecond)
+			curMu.Lock()
+			seq, in, rc := curSeq, curInput, curRecipe
+			curMu.Unlock()
+			if seq != last {
+				last, since = seq, time.Now()
+				continue
+			}
+			if in != "" && time.Since(since) > 30*time.Second {
+				curMu.Lock()
+				add("no-return:short-input", fmt.Sprintf("Sanitize did not return within 30 s on the %d-byte input %q", len(in), in), CostReplayFile{Kind: "style", Recipe: rc, Input: in, Budget: 1 << 40})
+				res.Cases = res.Execs
+				if *outPath != "" {
+					os.WriteFile(*outPath, JSON(res), 0o644)
+				}
+				fmt.Printf("costcheck: execs=%d violations=%d (left early: stuck on %q)\n", res.Execs, len(res.Violations), in)
+				os.Exit(0)
+			}
+		}
+	}()
 	// (1) every default CSS handler: repeated tokens in shorthand values
 	props := css.VerifDefaultHandlerNames()
 	sort.Strings(props)
@@ -312,6 +346,7 @@ func cmdCostCheck(args []string) int {
 		for _, k := range []string{"src", "href", "cite"} {
 			for _, v := range genURLVals {
 				input := string(Serialise([]Tok{{T: "start", N: el, A: []Attr{{k, v}, {"rel", "x"}, {"target", "_top"}}}}, nil))
+				announce(ugc, input)
 				_, _, _, pm, _ := sanitizeCounted(pu, input, 100000)
 				res.Execs++
 				if pm != "" {
@@ -320,6 +355,19 @@ func cmdCostCheck(args []string) int {
 			}
 		}
 	}
+	// every style value of the catalogue (escapes of every kind, comments, malformed tails) on elements with style rules
+	for _, el := range []string{"span", "custom-x", "p"} {
+		for _, v := range genStyleVals {
+			input := string(Serialise([]Tok{{T: "start", N: el, A: []Attr{{"style", v}, {"title", "t"}}}}, nil))
+			announce(ugc, input)
+			_, _, _, pm, _ := sanitizeCounted(pu, input, 100000)
+			res.Execs++
+			if pm != "" {
+				add("panic:style", fmt.Sprintf("Sanitize panicked on %q: %s", input, pm), CostReplayFile{Kind: "style", Recipe: ugc, Input: input, Budget: 100000})
+			}
+		}
+	}
+	announce(nil, "")
 	names := []string{}
 	for k := range gens {
 		names = append(names, k)
